@@ -90,6 +90,16 @@ def kept_keys_ok(s, r, v):
     return True
 
 
+def has_huge(v):
+    if type(v) is int:
+        return v.bit_length() > 15000
+    if isinstance(v, (list, tuple)):
+        return any(has_huge(x) for x in v)
+    if isinstance(v, dict):
+        return any(has_huge(k) or has_huge(x) for k, x in v.items())
+    return False
+
+
 def examine(t, s, v, tier, rng, want):
     """All violations (prop, sig-tail, detail) for one (schema, value)."""
     out = []
@@ -99,7 +109,8 @@ def examine(t, s, v, tier, rng, want):
     tcls = show(t)
     if res[0] == "exc":
         if "C12" in want:
-            out.append(("C12", f"raises:{res[1]}|{tcls}|{tname(v)}", res[2]))
+            kind = tname(v) + ("|contains-int-over-4300-digits" if has_huge(v) else "")
+            out.append(("C12", f"raises:{res[1]}|{tcls}|{kind}", res[2]))
         return out, res
     if res[0] == "suberr":
         return out, res
